@@ -214,12 +214,12 @@ Theorem init_pstate_start_ok : forall c st0,
 Proof.
   intros c st0 Hn DK H. unfold init_pstate in H.
   destruct (recover_writer (pc_table c) (pc_n c) (crash_image (pc_disk c) [])) as [s|r| |] eqn:R; try discriminate;
-    injection H as <-; (split; [|split; reflexivity]); unfold start_ok; cbn [ps_t ps_base ps_safe ps_disk ps_epoch_n ps_pol].
-  - split; [exact Hn|]. split; [reflexivity|]. split; [reflexivity|]. split; [reflexivity|]. split; [exact DK|].
+    injection H as <-; (split; [|split; reflexivity]); unfold start_ok; cbn [ps_t ps_base ps_safe ps_disk ps_epoch_n ps_pol ps_grabbed].
+  - split; [exact Hn|]. split; [reflexivity|]. split; [reflexivity|]. split; [reflexivity|]. split; [exact DK|]. split; [reflexivity|].
     left. split; [|auto].
     destruct (crash_recover_writer (pc_table c) _ (disk_ok_files _ _ DK) [] (start_nc _ _ DK) (pc_n c)) as [_ [_ [_ [W4 _]]]].
     apply (W4 s R).
-  - split; [exact Hn|]. split; [reflexivity|]. split; [reflexivity|]. split; [reflexivity|]. split; [exact DK|].
+  - split; [exact Hn|]. split; [reflexivity|]. split; [reflexivity|]. split; [reflexivity|]. split; [exact DK|]. split; [reflexivity|].
     right. exists r. auto.
 Qed.
 
@@ -390,7 +390,7 @@ Proof.
   intros table n st0 C evs st Hstart HC Hfresh H Hne.
   destruct (start_ok_pinv table n st0 Hstart) as [Hinv0 _].
   assert (Hph0 : phase table st0 C st0).
-  { destruct Hstart as [_ [_ [Hb [_ [_ [[Hnil [Hen _]]|[r [_ [_ Hen]]]]]]]]].
+  { destruct Hstart as [_ [_ [Hb [_ [_ [_ [[Hnil [Hen _]]|[r [_ [_ Hen]]]]]]]]]].
     - right. rewrite Hen, Hb, (Hfresh Hnil). split; [discriminate | constructor].
     - left. auto. }
   destruct (phase_run table st0 C evs st0 st HC Hinv0 H Hph0) as [[Hen _]|[_ Hb]]; [contradiction|].
@@ -472,7 +472,7 @@ Proof.
     pose proof (next_disk_ok table _ _ HD choice NC) as DK.
     destruct (start_ok_pinv table n st0 IHs) as [Hinv0 _].
     assert (Hph0 : phase table st0 (apply_batches G) st0).
-    { destruct IHs as [_ [_ [Hb [_ [_ [[Hnil0 [Hen _]]|[r0 [_ [_ Hen]]]]]]]]].
+    { destruct IHs as [_ [_ [Hb [_ [_ [_ [[Hnil0 [Hen _]]|[r0 [_ [_ Hen]]]]]]]]]].
       - right. rewrite Hen, Hb, (IHf Hnil0). split; [discriminate | constructor].
       - left. auto. }
     destruct (phase_run table st0 _ evs st0 st IHc Hinv0 Hrun Hph0) as [[_ [Hsd0 [Hsub Hmaxin]]]|[Hne _]]; [|contradiction].
